@@ -740,7 +740,7 @@ impl PreferenceManager {
         if changed_pref == "Language" && changed_value == "Auto" {
             // Language must have had a non-Auto value -- set LanguageAuto to old value so (probable) next change to LanguageAuto works well
             self.api_prefs.prefs.insert("LanguageAuto".to_string(),
-                                self.api_prefs.prefs.get("Language").unwrap_or(&DEFAULT_LANG).clone() );
+                                self.user_prefs.prefs.get("Language").unwrap_or(&DEFAULT_LANG).clone() );
             return Ok( () );
         }
 
